@@ -1,6 +1,6 @@
 """C18 - CLI exit codes and the argument-to-context contract.
 
-Model: lean/PypyrModel/Cli.lean (driver ops cli.exit/main/phases/argv/parser/parseinput/initctx);
+Model: lean/PypyrModel/Cli.lean (driver ops cli.exit/main/phases/classify/argv/process/parser/parseinput/initctx/shortcut);
 theorems Props/C18.lean. Implementation: harness/impl_c18.py (in-process and `python -m pypyr`).
 Monitors are written from the property text and judge the implementation's observation directly.
 
@@ -24,20 +24,42 @@ from .. import impl_c18 as impl
 LEAN_MODULES = ['Props.C18', 'Props.Translated_C18']
 TRUSTED = ['harness/props/c18.py, harness/impl_c18.py (generators, pipeline renderer, SIGINT hand-off, monitors, '
            'fault-injection shim and reference child)',
-           'harness/extract_c18.py (ast -> Generated/CliMain.lean)',
-           'CPython argparse / str.partition / str.join / json.loads / sys.exit / signal delivery',
+           'harness/extract_c18.py (ast -> Generated/CliMain.lean, Generated/CliOptions.lean)',
+           'CPython argparse / int() / str.partition / str.join / json.loads / pathlib.Path / sys.exit and the '
+           "interpreter's handling of an unhandled SystemExit / BaseException / signal delivery",
            "Lean's Lean.Json.parse as stand-in for json.loads in the driver (integers only, compared up to key order)"]
 ASSUMPTIONS = [
-    'argv grammar: exact long option strings of pypyr.cli.get_parser, no abbreviations, no --opt=value, no strings '
-    'starting with "-" before a "--" other than the options and "-"; --log values are decimal digit strings',
+    'argv domain: every list of strings EXCEPT: a string that starts with "-", matches no option/abbreviation and '
+    'contains a non-ASCII character (argparse\'s negative-number matcher uses \\d = any Unicode digit); an explicit '
+    'option argument that is exactly "--" (--success=--: CPython 3.12 stores the empty list); a --log value with a '
+    'non-ASCII character, a control character other than \\t\\n\\v\\f\\r, or longer than 4000 characters (int() takes '
+    'Unicode digits/blanks; int max str digits). The driver rejects these, the generators produce a few to count them. '
+    'Inside the domain: exact option strings, unique-prefix abbreviations (allow_abbrev), --opt=value, -h/--help/'
+    '--version (status 0, nothing runs), negative-number-like and blank-containing dash strings (arguments), unknown '
+    'options and surplus positionals (usage error at the end), "--"; --log takes what int() takes (+5, " 5 ", 5_0, -5)',
     'how a run ended is an input of the exit-status model (nothing / Stop family / KeyboardInterrupt / other '
-    'Exception with type name and message); which of these a given pipeline produces is C01/C02 territory and is '
-    'fixed here by construction of the generated pipelines',
-    'BaseException other than KeyboardInterrupt, shortcuts from config, --version/-h are outside the model',
+    'Exception with type name and message / SystemExit(code) / another BaseException); which of these a given pipeline '
+    'produces is C01/C02 territory and is fixed here by construction of the generated pipelines',
+    'the "exits 0 exactly when", "130", "255" theorems carry the explicit hypothesis "no BaseException other than '
+    'KeyboardInterrupt escaped"; what happens without it is modelled (SystemExit(code): the interpreter exits with 0 '
+    'for None, code & 0xFF for an int in [-2^63, 2^63), 1 and str(code) on stderr otherwise, no traceback; another '
+    'BaseException: status 1 and a traceback whose last line is not modelled) and compared with real processes. The '
+    'monitor reads the property text literally: status 0 after sys.exit(0|None|256..) in a step is reported as a '
+    'violation (signature part=exit clause=exit-0-iff-completed-or-stopped fault=SystemExit); a non-zero SystemExit '
+    'and other BaseExceptions are not "errors" in Python\'s sense (not derived from Exception) and are not judged '
+    'against the 255 clause, only against the model',
+    'the default of --dir is config.cwd = the module constant pypyr.config.CWD (Path.cwd() when pypyr.config was '
+    'imported); the model writes it as "none"; the harness checks it is that very object, also after a chdir',
+    'the traceback after the "type: message" line is printed iff the log level is given, non-zero and < 10 '
+    '(mirrored: showsTraceback; tied to the source by the extractor: errorTail)',
+    'shortcuts (config.shortcuts / Pipeline.new_pipe_and_args): string keys; pipeline_name, success, failure, loader, '
+    'py_dir absent / null / str; parser_args absent / null / str / list of str; skip_parse absent / null / bool; args '
+    'absent / null / dict with str keys; groups absent / null / str / list of str. Other value kinds are rejected by '
+    'the driver. Path(py_dir) normalisation is pathlib\'s. "passes ... through unchanged" is judged only for names '
+    'without a shortcut; with one, the documented rewrite (docstring of pipelinerunner.run / new_pipe_and_args)',
     'the exit-code clause covers what the command does after its arguments are parsed (config.init, logging set-up, '
     'pipeline load and run - every statement of cli.main after the get_args statement, wherever it sits relative to '
-    'the try); argparse usage errors (status 2), interpreter start-up / module import and faults inside the '
-    'exception handlers themselves are outside it',
+    'the try); interpreter start-up / module import and faults inside the exception handlers themselves are outside it',
 ]
 
 PARSERS = ['pypyr.parser.keyvaluepairs', 'pypyr.parser.argskwargs', 'pypyr.parser.dict', 'pypyr.parser.list',
@@ -45,33 +67,48 @@ PARSERS = ['pypyr.parser.keyvaluepairs', 'pypyr.parser.argskwargs', 'pypyr.parse
 
 CTX_WORDS = ['k=v', 'k=v=w', '=v', 'k=', 'a b', ' lead', 'trail ', "q'uote", '"dq"', 'ünï=ø', '', '-', 'x', 'k=--',
              'k=other', 'argList=zz', 'a', 'b=1', 'key with space=val ue', '✓', 'x=✓=y', '==', 'a\tb', 'k=\n']
-NAMES = ['pipe', 'dir/sub', 'a=b', 'with space', 'ünï', '', '-', "it's", '"q"']
-TAIL_WORDS = CTX_WORDS + ['-x', '--success', '--groups', '-1', '--log', '--nope=1', '-h']
-GROUP_WORDS = ['g1', 'steps', 'a b', '', 'ü', 'on_success', 'g=2']
-VALS = ['s', 'on_success', 'a b', '', 'ü', 'x=y', '/tmp/some dir', '-']
-LOGS = ['10', '0', '007', '25', '50']
+# arguments that start with '-' and that argparse still takes as arguments (negative numbers, blanks)
+DASH_ARGS = ['-1', '-1.5', '-.5', '-007', '-x y', '- ', '-1 x', '--x y', '-1\n', '-']
+NAMES = ['pipe', 'dir/sub', 'a=b', 'with space', 'ünï', '', '-', "it's", '"q"', '-1', '-x y']
+TAIL_WORDS = CTX_WORDS + ['-x', '--success', '--groups', '-1', '--log', '--nope=1', '-h', '--version', '--lo', '-ü']
+GROUP_WORDS = ['g1', 'steps', 'a b', '', 'ü', 'on_success', 'g=2', '-1', '-']
+VALS = ['s', 'on_success', 'a b', '', 'ü', 'x=y', '/tmp/some dir', '-', '-1', '-x y']
+JOINED_VALS = VALS + ['-x', '--groups', '--x', '=', 'a=b=c', '-h']     # after '=' anything goes (but exactly '--')
+LOGS = ['10', '0', '007', '25', '50', '+5', ' 5 ', '5_0', '-5', '-0', '\t7\n', '1_2_3', '9']
+BAD_LOGS = ['x', '', '5__0', '_5', '5_', '0x10', '1e3', '1.0', '+ 5', '5 5', '--5']
 OPTS = ['--groups', '--success', '--failure', '--dir', '--log', '--loglevel', '--logpath']
+# every way argparse lets an option be spelled: the exact strings and all unique prefixes
+FLAGS = {'groups': ['--groups', '--group', '--gro', '--g'], 'success': ['--success', '--succ', '--s'],
+         'failure': ['--failure', '--fail', '--f'], 'dir': ['--dir', '--di', '--d'],
+         'log': ['--log', '--loglevel', '--logl', '--logleve'], 'logpath': ['--logpath', '--logp', '--logpat']}
+AMBIGUOUS = ['--l', '--lo', '--=x', '--lo=5']
 
 
 # --------------------------------------------------------------------------
 # 1. argv
 # --------------------------------------------------------------------------
 
-def gen_opt(rng):
+def gen_opt(rng, spell=True):
+    """[kind, value(s), flag as written, joined?]"""
     k = rng.choice(['groups', 'success', 'failure', 'dir', 'log', 'logpath'])
+    flag = rng.choice(FLAGS[k]) if spell and rng.random() < 0.6 else FLAGS[k][0]
+    joined = spell and rng.random() < 0.35
     if k == 'groups':
-        return ['groups', [rng.choice(GROUP_WORDS) for _ in range(rng.randint(0, 3))]]
+        if joined:
+            return ['groups', [rng.choice([w for w in JOINED_VALS if w != '--'])], flag, True]
+        return ['groups', [rng.choice(GROUP_WORDS) for _ in range(rng.randint(0, 3))], flag, False]
     if k == 'log':
-        return ['log', rng.choice(LOGS), rng.choice(['--log', '--loglevel'])]
-    return [k, rng.choice(VALS)]
+        return ['log', rng.choice(LOGS), flag, joined]
+    return [k, rng.choice(JOINED_VALS if joined else VALS), flag, joined]
 
 
 def render_opt(o):
-    if o[0] == 'groups':
-        return ['--groups'] + list(o[1])
-    if o[0] == 'log':
-        return [o[2], o[1]]
-    return ['--' + o[0], o[1]]
+    k, v = o[0], o[1]
+    flag = o[2] if len(o) > 2 else FLAGS[k][0]
+    joined = o[3] if len(o) > 3 else False
+    if k == 'groups':
+        return [flag + '=' + v[0]] if joined else [flag] + list(v)
+    return [flag + '=' + v] if joined else [flag, v]
 
 
 def intended(pre_post, name, ctx):
@@ -82,18 +119,25 @@ def intended(pre_post, name, ctx):
     return a
 
 
+def opens_groups(o):
+    return o[0] == 'groups' and not (len(o) > 3 and o[3])
+
+
 def gen_cmdline(rng):
-    """A structured command line in one of the three accepted layouts + the values it means."""
+    """A structured command line in one of the three accepted layouts + the values it means. Options are
+    written with their exact strings, abbreviations and/or `=`-joined values; names and context arguments
+    include dash-leading strings argparse takes as arguments."""
     layout = rng.choice(['opts-name-ctx-opts', 'opts-dd-name-any', 'opts-name-ctx-dd-any'])
     pre = [gen_opt(rng) for _ in range(rng.randint(0, 3))]
     name = rng.choice(NAMES)
-    ctx = [rng.choice(CTX_WORDS) for _ in range(rng.choice([0, 1, 2, 3, 5]))]
+    words = CTX_WORDS + DASH_ARGS
+    ctx = [rng.choice(words) for _ in range(rng.choice([0, 1, 2, 3, 5]))]
     if layout == 'opts-dd-name-any':
         name = rng.choice(NAMES + ['-n', '--groups'])
         ctx = [rng.choice(TAIL_WORDS) for _ in range(rng.choice([0, 1, 2, 4]))]
         argv = [x for o in pre for x in render_opt(o)] + ['--', name] + ctx
         return {'layout': layout, 'argv': argv, 'means': intended(pre, name, ctx)}
-    while pre and pre[-1][0] == 'groups':      # a --groups list would swallow the name
+    while pre and opens_groups(pre[-1]):      # an open --groups list would swallow the name
         pre.pop()
     if layout == 'opts-name-ctx-opts':
         post = [gen_opt(rng) for _ in range(rng.randint(0, 3))]
@@ -104,11 +148,30 @@ def gen_cmdline(rng):
     return {'layout': layout, 'argv': argv, 'means': intended(pre, name, ctx + tail)}
 
 
+def gen_exit0(rng):
+    """--version / -h / --help (any spelling) among options that parse: status 0, nothing runs - whatever follows,
+    unless an ambiguous abbreviation stands anywhere before a `--` (found first, in the pattern pass)."""
+    pre = [gen_opt(rng) for _ in range(rng.randint(0, 2))]
+    flag = rng.choice(['--version', '--vers', '--v', '-h', '--help', '--he', '--h', '-hh', '-h=h'])
+    rest = [rng.choice(['pipe', 'a=b', '--success', '--groups', '-x', '--nope', '--log', 'x', '--', '--version', '-1'])
+            for _ in range(rng.randint(0, 4))]
+    argv = [x for o in pre for x in render_opt(o)] + [flag] + rest
+    return {'layout': 'exit0', 'argv': argv, 'means_exit0': True}
+
+
+SOUP_POOL = (OPTS * 2 + ['--', '--'] + CTX_WORDS[:8] + GROUP_WORDS[:3] + LOGS + BAD_LOGS[:4] + DASH_ARGS +
+             ['pipe', 'abc', '--version', '-h', '--help', '-x', '--gr', '--gro=a', '--groups=a', '--groups=', '--suc', '--s',
+              '--success=s', '--succ=a b', '--f=x', '--fail', '--d', '--dir=x', '--di=', '--l', '--lo', '--log=10', '--log=x',
+              '--logl', '--logl=5', '--logp', '--logp=p', '--logpath=', '--v', '--ver', '--version=1', '--h', '--he',
+              '--help=x', '--=x', '--=', '--x', '--nope=1', '--x y', '-1.', '-hh', '-hx', '-h=', '-h=h', '-hh=', '-1x', '--1',
+              '-=', '-=x', '--success s', '--log=-5', '--log= 5 ', '--log=+5', '--log=5_0', '--log=5__0', '--log=', '--loglevel=0x10',
+              '--success=--', '--groups=--', '-ü', '-١', '--log=٣', '+5', '--logx', '--loglevelx', '-.', '-..5', '-1.2.3', '-\n'])
+
+
 def gen_soup(rng):
-    """Adversarial: any order of option strings, values, words and `--`."""
+    """Adversarial: any order of option strings (all spellings), values, words, dash strings and `--`."""
     n = rng.randint(0, 7)
-    pool = OPTS * 2 + ['--'] + CTX_WORDS[:8] + GROUP_WORDS[:3] + LOGS[:2] + ['pipe', 'abc', '--', '--version', '-x', '--gr']
-    return {'layout': 'soup', 'argv': [rng.choice(pool) for _ in range(n)]}
+    return {'layout': 'soup', 'argv': [rng.choice(SOUP_POOL) for _ in range(n)]}
 
 
 DIRECTED_ARGV = [
@@ -122,30 +185,62 @@ DIRECTED_ARGV = [
     ['name', '--dir', '/x', '--logpath', 'p', '--loglevel', '20'], ['name', 'a', '--groups', 'g', '--', 'b'],
     ['--groups', '--', 'name'], ['name', '--', '--'], ['name', '--', '--', '--'], ['name', 'a', '--', '--', 'b'],
     ['--log', '5', '--log', '7', 'n'], ['n', '--success', 'a', '--success', 'b'], ['--dir', 'd', '--', 'n', '--dir', 'e'],
+    # abbreviations, = forms
+    ['name', '--gro', 'a', 'b'], ['name', '--suc', 's'], ['name', '--log=10'], ['name', '--dir=x'], ['name', '--success=s'],
+    ['name', '--lo', '5'], ['name', '--l=5'], ['name', '--logl', '5'], ['name', '--logp=p'], ['name', '--groups=a', 'b'],
+    ['--groups=a', 'name', 'b'], ['name', '--groups=a b'], ['name', '--groups='], ['name', '--log=x'], ['name', '--log='],
+    ['name', '--success=a=b'], ['name', '--success='], ['name', '--succ=x', '--fail=y', '--di=z', '--g=q'],
+    ['name', '--success=--'], ['name', '--groups=--'], ['name', '--log=--'],
+    # --log takes what int() takes
+    ['name', '--log', '+5'], ['name', '--log', ' 5 '], ['name', '--log', '5_0'], ['name', '--log', '-5'], ['name', '--log=-5'],
+    ['name', '--log', '5__0'], ['name', '--log', '٣'], ['name', '--log', '0'], ['name', '--log', '-0'],
+    # dash-leading arguments
+    ['name', '-1'], ['name', '-1', '-2.5', '-.5'], ['-1', 'a'], ['name', '-x'], ['name', '-x y'], ['name', '-1x'], ['name', '-1.'],
+    ['name', '--success', '-1'], ['name', '--success', '-x'], ['name', '--groups', '-1', '-2'], ['name', '--x y'],
+    ['name', 'a', '-1', 'b', '--groups', 'g'], ['name', '-ü'], ['name', '-١'],
+    # help / version: exit 0, nothing runs; what wins over what
+    ['--version'], ['-h'], ['--help'], ['name', '--version'], ['--ver'], ['--v'], ['--he'], ['-hh'], ['-hx'], ['-h=h'], ['-h='],
+    ['--version=1'], ['--help=x'], ['name', 'a', '--success', 's', 'extra', '--version'], ['--success', '--version'],
+    ['--version', '--success'], ['--version', '--lo'], ['--lo', '--version'], ['-x', '--version'], ['--log', 'x', '--version'],
+    ['--version', '--log', 'x'], ['--', '--version'], ['name', '--', '-h'],
+    # unknown options / surplus
+    ['name', '--nope'], ['--nope', 'name'], ['name', '--nope=1'], ['name', 'a', '--success', 's', 'b', 'c'],
 ]
 
 
-def check_argv(env, res, n_struct, n_soup):
+def check_argv(env, res, n_struct, n_soup, n_exit0=None):
     drv = env.driver
     cases = [{'layout': 'directed', 'argv': a} for a in DIRECTED_ARGV]
     cases += [gen_cmdline(env.rng) for _ in range(n_struct)]
+    cases += [gen_exit0(env.rng) for _ in range(n_struct // 10 if n_exit0 is None else n_exit0)]
     cases += [gen_soup(env.rng) for _ in range(n_soup)]
     models = drv.ask_many([('cli.argv', {'argv': c['argv']}) for c in cases])
     for c, m in zip(cases, models):
         case = {'kind': 'argv', **c}
         if isinstance(m, common.Reject):
             res.count('argv:outside-model')
-            if 'means' not in c:
+            if 'means' not in c and 'means_exit0' not in c:
                 continue
             m = None
         real = impl.get_args_obs(c['argv'])
         res.case(case, nontrivial=True)
         res.count('argv:' + c['layout'])
-        res.count('argv-result:' + ('usage' if 'usage' in real else 'ok'))
+        res.count('argv-result:' + ('usage' if 'usage' in real else 'exit0' if 'exit0' in real else 'ok'))
         if m is not None:
-            mv = {'usage': True} if 'usage' in m else {'ok': m['ok']}
+            mv = {'usage': True} if 'usage' in m else ({'exit0': True} if 'exit0' in m else {'ok': m['ok']})
             if mv != real:
                 res.mismatch(case, mv, real)
+        if 'means_exit0' in c:
+            # monitor: --version / -h / --help print and exit 0 (unless an ambiguous abbreviation precedes a `--`)
+            amb = False
+            for a in c['argv']:
+                if a == '--':
+                    break
+                if a in AMBIGUOUS:
+                    amb = True
+            if not amb and real != {'exit0': True}:
+                res.violation(case, f'help/version option among valid options does not exit 0: {real}',
+                              signature={'part': 'argv', 'clause': 'help-version-exit-0'}, impl=real)
         if 'means' in c:
             # monitor: a command line written in an accepted layout comes back unchanged. The one
             # documented exception (argparse drops the first literal "--" of the tail) is not judged.
@@ -157,11 +252,20 @@ def check_argv(env, res, n_struct, n_soup):
                 res.violation(case, f'get_args does not pass {diff} through unchanged: got {real}, written {means}',
                               signature={'part': 'argv', 'clause': 'passthrough', 'fields': ','.join(diff)}, impl=real)
         # the call main makes
-        if m is not None and 'ok' in m and env.rng.random() < 0.5:
+        if m is not None and ('ok' in m or 'exit0' in m) and env.rng.random() < 0.5:
             call = impl.main_call_obs(c['argv'])
-            want = {'call': m['call'], 'ret': None}
             case2 = {'kind': 'main-call', 'argv': c['argv']}
             res.case(case2, nontrivial=True)
+            if 'exit0' in m:
+                res.count('main-call:exit0')
+                want = {'exit0': True, 'called': False}
+                if call != want:
+                    res.mismatch(case2, want, call)
+                if call.get('called') or 'call' in call:
+                    res.violation(case2, f'the runner is called although the command line asks for help/version: {call}',
+                                  signature={'part': 'main', 'clause': 'help-version-no-run'}, impl=call)
+                continue
+            want = {'call': m['call'], 'ret': None}
             res.count('main-call')
             if call != want:
                 res.mismatch(case2, want, call)
@@ -173,6 +277,49 @@ def check_argv(env, res, n_struct, n_soup):
                     diff = sorted(k for k in exp if (call.get('call') or {}).get(k) != exp[k])
                     res.violation(case2, f'cli.main does not pass {diff} to the runner unchanged: {call} vs {exp}',
                                   signature={'part': 'main', 'clause': 'passthrough', 'fields': ','.join(diff)}, impl=call)
+
+
+def classify_pool(rng, n):
+    """Strings for the one-string tie with argparse's `_parse_optional`."""
+    S = set()
+    longs = ['--help', '--groups', '--success', '--failure', '--dir', '--log', '--loglevel', '--logpath', '--version']
+    for o in longs + ['-h']:
+        for k in range(1, len(o) + 1):
+            p = o[:k]
+            if p == '--':
+                continue
+            S.add(p)
+            for v in ('', 'x', 'a b', '=', '--', 'h', '-1', 'ü'):
+                S.add(p + '=' + v)
+            S.add(p + 'x')
+            S.add(p + ' x')
+    S.update(DASH_ARGS + ['-x', '-1.', '-1x', '-.', '-..5', '-1.2.3', '-\n', '-1\n', '-1\n\n', '-1 \n', '-h', '-hh', '-hhh', '-hx', '-h=',
+                          '-h=h', '-hh=', '-h=hh', '-hxh', '-=', '-=x', '--=', '--=x', '--x', '--x y', '--1', '---', '---x', '----groups',
+                          '-', '', 'x', 'a=b', '+5', '-ü', '-١', '--ü', '--gröups', '-é 1', '-0', '-00.0', '-.0', '-0.', '- 1', '-1_0'])
+    chars = '-hgl=x 1.\nü_'
+    for _ in range(n):
+        k = rng.randint(1, 7)
+        S.add(rng.choice(['-', '--', '-h', '--lo', '--g', '-1', '-.']) + ''.join(rng.choice(chars) for _ in range(k)))
+    S.discard('--')
+    return sorted(S)
+
+
+def check_classify(env, res, n):
+    """`classify` vs `ArgumentParser._parse_optional` on single strings: exact options, every prefix, `=` forms,
+    the negative-number matcher, the blank rule, unknown options."""
+    drv = env.driver
+    pool = classify_pool(env.rng, n)
+    models = drv.ask_many([('cli.classify', {'s': x}) for x in pool])
+    for x, m in zip(pool, models):
+        case = {'kind': 'classify', 's': x}
+        if isinstance(m, common.Reject):
+            res.count('classify:outside-model')
+            continue
+        real = impl.classify_obs(x)
+        res.case(case, nontrivial=True)
+        res.count('classify:' + real['cls'])
+        if m != real:
+            res.mismatch(case, m, real)
 
 
 # --------------------------------------------------------------------------
@@ -392,31 +539,206 @@ def check_api(env, res, n):
 
 
 # --------------------------------------------------------------------------
+# 3b. shortcuts: Pipeline.new_pipe_and_args under config.shortcuts
+# --------------------------------------------------------------------------
+
+ABSENT = '<absent>'
+
+
+def gen_shortcut(rng, wild):
+    sc = {}
+
+    def put(key, choices):
+        v = rng.choice(choices)
+        if v is not ABSENT:
+            sc[key] = v
+    put('pipeline_name', ['real', 'real', 'dir/p', 'real', '', None, ABSENT] if rng.random() < 0.3 else ['real', 'dir/p'])
+    put('parser_args', [ABSENT, ABSENT, None, [], ['a=1'], ['a=1', 'b c'], ['x=sc'], 'a=1 b=2', ''])
+    put('skip_parse', [ABSENT, ABSENT, None, True, False])
+    put('args', [ABSENT, ABSENT, None, {}, {'k': 'sc'}, {'k': 'sc', 'nested': {'x': [1, 2]}, 'only': 1}])
+    put('groups', [ABSENT, ABSENT, None, 'g', ['g1', 'g2'], [], ''])
+    put('success', [ABSENT, ABSENT, None, 's', ''])
+    put('failure', [ABSENT, ABSENT, None, 'f'])
+    put('loader', [ABSENT, ABSENT, ABSENT, None, 'my.loader'])
+    put('py_dir', [ABSENT, ABSENT, None, '', '/abs/dir', 'rel//dir/', '.'])
+    if wild and rng.random() < 0.5:
+        k, v = rng.choice([('skip_parse', 0), ('skip_parse', 'false'), ('parser_args', [1, 2]), ('args', [1]), ('groups', 5),
+                           ('groups', ['g', 1]), ('success', 3), ('py_dir', 7), ('pipeline_name', 5), ('args', {1: 2})])
+        sc[k] = v
+    return sc
+
+
+def gen_api_call(rng, names):
+    return {'name': rng.choice(names), 'context_args': rng.choice([None, [], ['x=1'], ['x=1', 'y'], ['a=mine']]),
+            'parse_input': rng.choice([None, True, False]),
+            'dict_in': rng.choice([None, None, {}, {'k': 'mine'}, {'k': 'mine', 'z': [1], 'nested': {'y': 0}}]),
+            'loader': rng.choice([None, None, 'caller.loader']), 'groups': rng.choice([None, [], ['cg'], ['cg1', 'cg2']]),
+            'success_group': rng.choice([None, 'cs']), 'failure_group': rng.choice([None, 'cf']),
+            'py_dir': rng.choice([None, '/caller/dir'])}
+
+
+def ref_shortcut(sc, call):
+    """What the documentation says a shortcut does (docstrings of pipelinerunner.run / new_pipe_and_args), for a
+    well-formed shortcut: every property the shortcut does not specify falls back to the caller's; the caller's
+    arguments are appended to parser_args; the caller's dict is merged into args."""
+    out = dict(call)
+    out['name'] = sc['pipeline_name']
+    pa = sc.get('parser_args')
+    if pa:
+        out['context_args'] = list(pa) + list(call['context_args'] or [])
+    a = sc.get('args')
+    if a:
+        out['dict_in'] = {**a, **(call['dict_in'] or {})}
+    for key, field in (('groups', 'groups'), ('success', 'success_group'), ('failure', 'failure_group'), ('loader', 'loader')):
+        if key in sc:
+            out[field] = sc[key]
+    if isinstance(out['groups'], str):
+        out['groups'] = [out['groups']]
+    if sc.get('py_dir'):
+        out['py_dir'] = {'path': sc['py_dir']}
+    else:
+        out['py_dir'] = {'caller': call['py_dir']}
+    sp = sc.get('skip_parse')
+    out['parse_input'] = (not sp) if sp is not None else not (not out['context_args'] and out['dict_in'] is not None)
+    out['dict_in'] = None if out['dict_in'] is None else common.enc(out['dict_in'])
+    del out['parse_input_caller']
+    return out
+
+
+DIRECTED_SHORTCUTS = [
+    ({}, 'sc'), ({'sc': None}, 'sc'), ({'sc': {}}, 'sc'), ({'other': {'pipeline_name': 'x'}}, 'sc'),
+    ({'sc': {'pipeline_name': 'real'}}, 'sc'), ({'sc': {'groups': 'g'}}, 'sc'), ({'sc': {'pipeline_name': ''}}, 'sc'),
+    ({'sc': {'pipeline_name': 'real', 'parser_args': 'a b'}}, 'sc'),
+    ({'sc': {'pipeline_name': 'real', 'parser_args': ['a=1'], 'args': {'k': 'sc'}, 'groups': ['g'], 'success': 's', 'failure': 'f',
+             'loader': 'l', 'py_dir': '/d', 'skip_parse': True}}, 'sc'),
+    ({'sc': {'pipeline_name': 'real', 'args': {'k': 'sc'}}}, 'sc'), ({'sc': {'pipeline_name': 'real', 'groups': None, 'success': None}}, 'sc'),
+]
+
+
+def check_shortcuts(env, res, n):
+    from pathlib import Path
+    drv = env.driver
+    rng = env.rng
+    cases = []
+    for table, name in DIRECTED_SHORTCUTS:
+        for pi in (None, True, False):
+            for ca, di in ((None, None), (['x=1'], None), ([], {'k': 'mine'}), (['x=1'], {'k': 'mine'}), (None, {})):
+                cases.append((table, {'name': name, 'context_args': ca, 'parse_input': pi, 'dict_in': di, 'loader': None,
+                                      'groups': ['cg'], 'success_group': 'cs', 'failure_group': None, 'py_dir': '/caller'}))
+    while len(cases) < n:
+        wild = rng.random() < 0.15
+        table = {}
+        if rng.random() < 0.85:
+            table['sc'] = gen_shortcut(rng, wild)
+        if rng.random() < 0.3:
+            table['zzz'] = gen_shortcut(rng, False)
+        if rng.random() < 0.05:
+            table['sc'] = rng.choice([None, {}, 'just a string'])
+        cases.append((table, gen_api_call(rng, ['sc', 'sc', 'sc', 'other', 'zzz'])))
+    models = drv.ask_many([('cli.shortcut', {'shortcuts': common.enc(t), 'call': {**c, 'dict_in': None if c['dict_in'] is None
+                                                                                   else common.enc(c['dict_in'])}}) for t, c in cases])
+    for (table, call), m in zip(cases, models):
+        case = {'kind': 'shortcut', 'shortcuts': table, 'call': call}
+        if isinstance(m, common.Reject):
+            res.count('shortcut:outside-model')
+            continue
+        real = impl.shortcut_obs(table, call)
+        res.case(case, nontrivial=True)
+        sc = table.get(call['name']) if table else None
+        kind = 'none' if not sc else ('error' if 'err' in real else 'applies')
+        res.count('shortcut:' + kind)
+        mv = m
+        if 'ok' in m and 'path' in m['ok']['py_dir']:
+            mv = {'ok': {**m['ok'], 'py_dir': {'path': str(Path(m['ok']['py_dir']['path']))}}}
+        if mv != real:
+            res.mismatch(case, mv, real)
+        if real.get('config_mutated'):
+            res.violation(case, 'new_pipe_and_args changed config.shortcuts', signature={'part': 'shortcut', 'clause': 'config-untouched'},
+                          impl=real)
+        if 'ok' not in real:
+            continue
+        got = real['ok']
+        if not sc:
+            # monitor (property text): without a shortcut of that name everything passes through unchanged and the
+            # parser runs unless a dict was supplied without arguments or parsing was explicitly disabled
+            want = {'name': call['name'], 'context_args': call['context_args'],
+                    'parse_input': call['parse_input'] if call['parse_input'] is not None
+                    else not (call['dict_in'] is not None and not call['context_args']),
+                    'dict_in': None if call['dict_in'] is None else common.enc(call['dict_in']), 'loader': call['loader'],
+                    'groups': call['groups'], 'success_group': call['success_group'], 'failure_group': call['failure_group'],
+                    'py_dir': {'caller': call['py_dir']}}
+            if got != want:
+                diff = sorted(k for k in want if got.get(k) != want[k])
+                res.violation(case, f'no shortcut named {call["name"]!r}: {diff} do not pass through unchanged: {got} vs {want}',
+                              signature={'part': 'shortcut', 'clause': 'no-shortcut-identity', 'fields': ','.join(diff)}, impl=real)
+        elif isinstance(sc, dict) and sc.get('pipeline_name'):
+            want = ref_shortcut(sc, {**call, 'parse_input_caller': call['parse_input']})
+            want['py_dir'] = {k: (str(Path(v)) if k == 'path' else v) for k, v in want['py_dir'].items()}
+            if got != want:
+                diff = sorted(k for k in want if got.get(k) != want[k])
+                res.violation(case, f'shortcut {call["name"]!r}: documented rewrite gives {want}, new_pipe_and_args gives {got}',
+                              signature={'part': 'shortcut', 'clause': 'documented-rewrite', 'fields': ','.join(diff)}, impl=real)
+
+
+# --------------------------------------------------------------------------
 # 4. exit status: the ladders in-process
 # --------------------------------------------------------------------------
 
 MSGS = ['boom', 'k=v', 'with "quotes"', "it's", 'ünï ✓', 'line1\nline2', '', ' spaced ', '{braces}', '%s %d']
 TYPES = ['ValueError', 'RuntimeError', 'TypeError', 'AssertionError', 'KeyNotInContextError', 'PipelineNotFoundError',
          'ContextError', 'MyOwnError', 'OSError', 'Error']
+# BaseExceptions that are neither Exception nor KeyboardInterrupt: nothing in pypyr catches them
+EXIT_CODES = [0, None, 3, 1, 2, 130, 255, 256, 512, 257, -1, -256, {'text': 'bye now'}, {'text': ''},
+              {'text': 'ünï ✓'}, {'text': '[1]'}, {'text': '1.5'}, 2 ** 40, -(2 ** 40) + 7]
+BASES = ([{'kind': 'systemExit', 'code': c} for c in EXIT_CODES] +
+         [{'kind': 'systemExit', 'code': 1, 'bool': True}, {'kind': 'systemExit', 'code': 0, 'bool': True}] +
+         [{'kind': 'baseOther', 'ty': t, 'msg': m} for t, m in (('GeneratorExit', ''), ('GeneratorExit', 'ge'), ('MyBase', 'bb'),
+                                                                 ('MyBase', ''), ('AbortRun', 'ünï ✓'))])
+LOG_LEVELS = [None, None, 0, 1, 5, 9, 10, 25, 50, -5, -1]
+SIG_EXIT0 = {'part': 'exit', 'clause': 'exit-0-iff-completed-or-stopped', 'fault': 'SystemExit'}
+# one fixed opening sentence, so that every instance of this finding collapses into one VIOLATION line
+EXIT0_TEXT = ('the command exits 0 although the pipeline neither ran to completion nor was ended by a Stop instruction: '
+              'a SystemExit whose code means status 0 (sys.exit(0) / sys.exit() / sys.exit(256)) raised inside the run '
+              'passes every handler of pypyr (all of them say `except Exception` or `except Stop`) - ')
+
+
+def code_status(c):
+    """Status the interpreter exits with for an unhandled SystemExit(code) - the harness's own reference."""
+    if c is None:
+        return 0
+    if isinstance(c, dict):
+        return 1
+    return int(c) & 0xFF
 
 
 def check_ladders(env, res, n):
     drv = env.driver
     rng = env.rng
     raiseds = [{'kind': k} for k in ('nothing', 'stop', 'stopPipeline', 'stopStepGroup', 'keyboardInterrupt')]
-    raiseds += [{'kind': 'error', 'ty': t, 'msg': m} for t in TYPES for m in MSGS]
-    if len(raiseds) > n:
-        raiseds = raiseds[:5] + rng.sample(raiseds[5:], n - 5)
+    fixed = len(raiseds) + len(BASES)
+    errors = [{'kind': 'error', 'ty': t, 'msg': m} for t in TYPES for m in MSGS]
+    raiseds += BASES + (errors if len(errors) + fixed <= n else rng.sample(errors, max(5, n - fixed)))
     for r in raiseds:
-        case = {'kind': 'ladder', 'raised': r}
-        m = drv.ask('cli.main', raised=r)
-        real = impl.main_ladder_obs(r)
+        lvl = rng.choice(LOG_LEVELS)
+        case = {'kind': 'ladder', 'raised': r, 'log_level': lvl}
+        try:
+            m = drv.ask('cli.main', raised=r, log_level=lvl)
+        except common.Reject:
+            res.count('ladder:outside-model')
+            continue
+        real = impl.main_ladder_obs(r, log_level=lvl)
         real_pr = impl.pipeline_run_obs(r)
         res.case(case, nontrivial=True)
         res.count('ladder:' + r['kind'])
-        mv = {'ret': m['ret'], 'stdout': m['stdout'], 'stderr': m['stderr']}
-        if mv != real:
-            res.mismatch(case, mv, real)
+        res.count('ladder-log:' + ('none' if lvl is None else '0' if lvl == 0 else '<10' if lvl < 10 else '>=10'))
+        if real['outcome'] == 'returned':
+            mv = {k: m.get(k) for k in ('outcome', 'ret', 'stdout', 'stderr', 'main_traceback')}
+            rv = {k: real.get(k) for k in ('outcome', 'ret', 'stdout', 'stderr', 'main_traceback')}
+        else:
+            mv = {'outcome': m['outcome'], 'escaped': m.get('escaped')}
+            rv = {'outcome': 'escaped', 'escaped': real['escaped']}
+        if mv != rv:
+            res.mismatch(case, mv, {**rv, 'exc': real.get('exc')})
         if m['pipeline_run'] != real_pr:
             res.mismatch({**case, 'layer': 'Pipeline.run'}, m['pipeline_run'], real_pr)
         # monitors
@@ -424,8 +746,17 @@ def check_ladders(env, res, n):
         if stop_family and real_pr != 'nothing':
             res.violation(case, f'Pipeline.run lets {r["kind"]} escape ({real_pr}): the command would not exit 0',
                           signature={'part': 'exit', 'clause': 'stop-is-success', 'kind': r['kind']}, impl=real_pr)
-        if isinstance(real['ret'], str):
-            res.violation(case, f'{r["kind"]} raised by the runner leaves cli.main {real["ret"]}: the command dies with a '
+        if r['kind'] in ('systemExit', 'baseOther'):
+            # not an Exception: judged only on the "exits 0 exactly when" clause
+            if real['outcome'] == 'escaped' and real['escaped'] == 'systemExit' and code_status(real.get('code')) == 0:
+                res.violation(case, EXIT0_TEXT + f'in-process: SystemExit({real.get("code")!r}) raised by the runner leaves '
+                              'cli.main, the interpreter will exit 0', signature=SIG_EXIT0, impl=real)
+            elif real['outcome'] == 'returned' and (real['ret'] in (None, 0)):
+                res.violation(case, EXIT0_TEXT + f'in-process: {r} raised by the runner: cli.main returns {real["ret"]}',
+                              signature=SIG_EXIT0, impl=real)
+            continue
+        if real['outcome'] == 'escaped':
+            res.violation(case, f'{r["kind"]} raised by the runner leaves cli.main ({real["exc"]}): the command dies with a '
                           'traceback and the interpreter\'s status',
                           signature={'part': 'exit', 'clause': 'escapes-main', 'kind': r['kind']}, impl=real)
             continue
@@ -441,8 +772,6 @@ def check_ladders(env, res, n):
             elif f"{r['ty']}: {r['msg']}" not in real['stderr']:
                 res.violation(case, f'stderr lacks "{r["ty"]}: {r["msg"]}": {real["stderr"]!r}',
                               signature={'part': 'exit', 'clause': 'stderr-type-message'}, impl=real)
-        if real_pr == 'error' and r['kind'] == 'error':
-            pass
 
 
 # --------------------------------------------------------------------------
@@ -455,7 +784,9 @@ PHASES = ('config', 'logger', 'run')
 def check_phase_ladders(env, res, n):
     """cli.main with a scripted fault in each phase (config.init / set_root_logger / below Pipeline.run),
     alone and in pairs (the earlier phase must win): model `cli.phases` vs the real function, and the
-    monitor from the property text - whatever phase raised, main must return 130 / 255+text, never let it out."""
+    monitor from the property text - whatever phase raised, main must return 130 / 255+text, never let it out
+    (a BaseException that is no Exception is not judged against that clause; SystemExit with a status-0 code is
+    reported against the "exits 0 exactly when" clause)."""
     drv = env.driver
     rng = env.rng
     NOTHING = {'kind': 'nothing'}
@@ -464,14 +795,16 @@ def check_phase_ladders(env, res, n):
                 (('ValueError', 'boom'), ('ConfigError', 'Could not open config file at /x/y.yaml.'),
                  ('FileNotFoundError', "[Errno 2] No such file or directory: '/nodir/x.log'"), ('MyOwnError', ''),
                  ('TOMLDecodeError', 'line1\nline2'), ('OSError', 'ünï ✓'))]
+    bases = [{'kind': 'systemExit', 'code': c} for c in (0, None, 3, 256, {'text': 'bye'})] + \
+            [{'kind': 'baseOther', 'ty': 'GeneratorExit', 'msg': ''}, {'kind': 'baseOther', 'ty': 'MyBase', 'msg': 'bb'}]
     every = [{'kind': 'error', 'ty': t, 'msg': m} for t in TYPES for m in MSGS]
     cases = [{}]
     for ph in PHASES:
-        for r in singles:
+        for r in singles + bases:
             cases.append({ph: r})
     for a, b in (('config', 'logger'), ('config', 'run'), ('logger', 'run')):
-        for ra in singles[:1] + singles[4:6]:
-            for rb in singles[:1] + singles[4:5]:
+        for ra in singles[:1] + singles[4:6] + bases[:1] + bases[5:6]:
+            for rb in singles[:1] + singles[4:5] + bases[2:3]:
                 cases.append({a: ra, b: rb})
     cases.append({'config': singles[4], 'logger': singles[0], 'run': singles[5]})
     extra = max(0, n - len(cases))
@@ -479,13 +812,17 @@ def check_phase_ladders(env, res, n):
         f = {}
         for ph in PHASES:
             if rng.random() < 0.45:
-                f[ph] = rng.choice(every + singles)
+                f[ph] = rng.choice(every + singles + BASES)
         cases.append(f)
     for f in cases:
         faults = {ph: f.get(ph, NOTHING) for ph in PHASES}
-        lvl = rng.choice([None, None, 50, 5])
+        lvl = rng.choice(LOG_LEVELS)
         case = {'kind': 'phase-ladder', 'faults': faults, 'log_level': lvl}
-        m = drv.ask('cli.phases', faults=faults)
+        try:
+            m = drv.ask('cli.phases', faults=faults, log_level=lvl)
+        except common.Reject:
+            res.count('phase-ladder:outside-model')
+            continue
         real = impl.main_phases_obs(faults, log_level=lvl)
         res.case(case, nontrivial=True)
         # the first phase (source order of the property text: config, logging, run) whose call raises;
@@ -499,18 +836,32 @@ def check_phase_ladders(env, res, n):
             break
         res.count('phase-ladder:' + (f'{first}:{faults[first]["kind"]}' if first else 'none'))
         if real['outcome'] == 'returned':
-            rv = {'outcome': 'returned', 'ret': real['ret'], 'stdout': real['stdout'],
-                  'stderr': real['stderr'].split('Traceback (most recent call last)')[0]}
+            rv = {k: real.get(k) for k in ('outcome', 'ret', 'stdout', 'stderr', 'main_traceback')}
+            mv = {k: m.get(k) for k in ('outcome', 'ret', 'stdout', 'stderr', 'main_traceback')}
         else:
-            rv = {'outcome': 'escaped'}
-        mv = {'outcome': m['outcome']}
-        if m['outcome'] == 'returned':
-            mv.update(ret=m['ret'], stdout=m['stdout'], stderr=m['stderr'])
+            rv = {'outcome': 'escaped', 'escaped': real['escaped']}
+            mv = {'outcome': m['outcome'], 'escaped': m.get('escaped')}
         if mv != rv:
             res.mismatch(case, mv, {**rv, 'exc': real.get('exc')})
+        # which calls were reached: everything up to and including the first raising phase
+        want_reached = list(PHASES[:PHASES.index(first) + 1]) if first else list(PHASES)
+        if first is None and any(faults[ph]['kind'] != 'nothing' for ph in PHASES):
+            want_reached = list(PHASES)
+        if real.get('reached') != want_reached:
+            res.mismatch({**case, 'layer': 'reached'}, want_reached, real.get('reached'))
         # ---- monitor
-        cls = 'none' if not first else ('keyboardInterrupt' if faults[first]['kind'] == 'keyboardInterrupt' else 'exception')
+        fk = faults[first]['kind'] if first else 'none'
+        cls = 'none' if not first else ('keyboardInterrupt' if fk == 'keyboardInterrupt' else
+                                        'base' if fk in ('systemExit', 'baseOther') else 'exception')
         sig = {'part': 'exit', 'phase': first or 'none', 'fault': cls}
+        if cls == 'base':
+            if real['outcome'] == 'escaped' and real['escaped'] == 'systemExit' and code_status(real.get('code')) == 0:
+                res.violation(case, EXIT0_TEXT + f'in-process, {first} phase: SystemExit({real.get("code")!r}) leaves cli.main, '
+                              'the interpreter will exit 0', signature=SIG_EXIT0, impl=real)
+            elif real['outcome'] == 'returned' and real['ret'] in (None, 0):
+                res.violation(case, EXIT0_TEXT + f'in-process, {first} phase: {faults[first]}: cli.main returns {real["ret"]}',
+                              signature=SIG_EXIT0, impl=real)
+            continue
         if real['outcome'] == 'escaped':
             res.violation(case, f'{first} phase, {cls}: what this phase raises leaves cli.main uncaught (here {real["exc"]}): '
                           'the command dies with a traceback and the interpreter\'s status instead of ' +
@@ -626,6 +977,10 @@ def proc_cases(env, full):
     add('error', 'retry-exhausted', [raise_step('ValueError', 'orig', retry={'max': 2})], e, raised=r)
     add('error', 'in-called-group', [{'name': 'pypyr.steps.call', 'in': {'call': 'g'}}, NEVER], e, raised=r, g=[raise_step('ValueError', 'orig')])
     add('error', 'traceback-log-5', [raise_step('ValueError', 'orig')], e, raised=r, argv=['pipe', '--log', '5'])
+    for la in ([['--log', '9'], ['--log=0'], ['--log', '-5'], ['--logl', '10'], ['--log', ' 5 '], ['--log=+5'], ['--loglevel=1_0']]
+               if full else [rng.choice([['--log', '9'], ['--log', ' 5 '], ['--log=+5']]), rng.choice([['--log=0'], ['--logl', '10']]),
+                             ['--log', '-5']]):
+        add('error', 'traceback/' + ' '.join(la), [raise_step('ValueError', 'orig')], e, raised=r, argv=['pipe'] + la)
     ez, rz = E('ZeroDivisionError', 'division by zero')
     add('error', 'zero-division', [py('1/0')], ez, raised=rz)
     add('error', 'swallow-false', [raise_step('ValueError', 'orig', swallow=False)], e, raised=r)
@@ -708,7 +1063,7 @@ def probe_case(rng):
              'mods/probemod.py': ("import json\ndef run_step(context):\n"
                                   "    with open('@TMP@/probe.jsonl', 'a') as f:\n"
                                   "        f.write(json.dumps({'g': 'probemod'}) + '\\n')\n")}
-    ctx = [rng.choice([w for w in CTX_WORDS if w not in ('-',)]) for _ in range(rng.choice([0, 1, 2, 4]))]
+    ctx = [rng.choice([w for w in CTX_WORDS + DASH_ARGS[:7] if w not in ('-',)]) for _ in range(rng.choice([0, 1, 2, 4]))]
     opts = []
     g = rng.choice([None, ['g1'], ['g1', 'g2'], ['steps', 'g1'], ['g2', 'g1', 'g2']])
     if g is not None:
@@ -721,7 +1076,11 @@ def probe_case(rng):
         opts.append(['failure', f])
     if use_dir:
         opts.append(['dir', '@TMP@/mods'])
-    opts.append(['log', '50', '--log'])
+    opts.append(['log', rng.choice(['50', '+50', ' 50 ', '5_0'])])
+    # every option in one of the spellings argparse accepts: exact / abbreviated, value separate / joined with =
+    for o in opts:
+        o.append(rng.choice(FLAGS[o[0]]))
+        o.append(rng.random() < 0.4 and (o[0] != 'groups' or len(o[1]) == 1))
     rng.shuffle(opts)
     layout = rng.choice(['post', 'pre', 'dd'])
     ro = lambda os_: [x for o in os_ for x in render_opt(o)]
@@ -729,7 +1088,7 @@ def probe_case(rng):
         argv = ['pipe'] + ctx + ro(opts)
     elif layout == 'pre':
         pre = opts[:rng.randint(0, len(opts))]
-        while pre and pre[-1][0] == 'groups':
+        while pre and opens_groups(pre[-1]):
             pre = pre[:-1]
         post = opts[len(pre):]
         argv = ro(pre) + ['pipe'] + ctx + ro(post)
@@ -760,6 +1119,231 @@ def probe_case(rng):
                        **({'type': 'ValueError', 'msg': 'probe failure'} if failed else {})},
             'raised': {'kind': 'error', 'ty': 'ValueError', 'msg': 'probe failure'} if failed else None,
             'sigint': False, 'parser': parser, 'ctx_args': ctx}
+
+
+# --------------------------------------------------------------------------
+# 5a. real processes: SystemExit / other BaseExceptions raised inside the run; help/version; shortcuts
+# --------------------------------------------------------------------------
+
+def exit_code_src(c):
+    if isinstance(c, dict):
+        return repr(c['text'])
+    return repr(c)
+
+
+def base_step(raised, **deco):
+    if raised['kind'] == 'systemExit':
+        c = bool(raised['code']) if raised.get('bool') else raised['code']
+        return py(f"import sys\nsys.exit({exit_code_src(c)})", **deco)
+    if raised['ty'] == 'GeneratorExit':
+        return py(f"raise GeneratorExit({raised['msg']!r})", **deco)
+    return py(f"class {raised['ty']}(BaseException): pass\nraise {raised['ty']}({raised['msg']!r})", **deco)
+
+
+def base_cases(env, full):
+    """`sys.exit(code)` / a BaseException that is no Exception raised by a step, in every position where pypyr
+    has a handler that could (but must not be assumed to) interfere: a step after it (`never`), `on_success`
+    and `on_failure` must not run; the process ends as the interpreter ends it."""
+    rng = env.rng
+    C = []
+    P = probe_step
+
+    def add(variant, raised, body, trace, files=None, argv=None):
+        f = dict(files or {})
+        f['work/pipe.yaml'] = json.dumps(body, indent=1, ensure_ascii=True)
+        C.append({'kind': 'proc', 'family': 'base', 'variant': variant, 'raised': raised, 'files': f,
+                  'argv': argv or ['pipe'], 'expect_trace': trace, 'sigint': False})
+    S = lambda c, **k: {'kind': 'systemExit', 'code': c, **k}
+    heads = [S(0), S(3), S({'text': 'text here'}), S(None), {'kind': 'baseOther', 'ty': 'MyBase', 'msg': 'bb'},
+             {'kind': 'baseOther', 'ty': 'GeneratorExit', 'msg': 'ge'}]
+    more = [S(c) for c in (1, 2, 130, 255, 256, 257, 512, -1, -256, 2 ** 40, {'text': ''}, {'text': 'ünï ✓'})] + \
+           [S(1, bool=True), S(0, bool=True), {'kind': 'baseOther', 'ty': 'MyBase', 'msg': ''}]
+    tails = {'on_success': [P('on_success')], 'on_failure': [P('on_failure')]}
+    for r in heads + (more if full else rng.sample(more, 3)):
+        add('plain', r, {'steps': [P('before'), base_step(r), P('never')], **tails}, ['before'])
+    positions = [
+        ('swallow', lambda r: {'steps': [P('before'), base_step(r, swallow=True), P('never')], **tails}, ['before']),
+        ('retry', lambda r: {'steps': [P('before'), base_step(r, retry={'max': 3}), P('never')], **tails}, ['before']),
+        ('foreach', lambda r: {'steps': [P('before'), base_step(r, foreach=[1, 2]), P('never')], **tails}, ['before']),
+        ('while', lambda r: {'steps': [P('before'), base_step(r, **{'while': {'max': 3}}), P('never')], **tails}, ['before']),
+        ('in-called-group', lambda r: {'steps': [P('before'), {'name': 'pypyr.steps.call', 'in': {'call': 'g'}}, P('never')],
+                                       'g': [P('g'), base_step(r), P('never')], **tails}, ['before', 'g']),
+        ('in-on_failure', lambda r: {'steps': [P('before'), raise_step('ValueError', 'orig'), P('never')],
+                                     'on_failure': [P('on_failure'), base_step(r), P('never')], 'on_success': [P('on_success')]},
+         ['before', 'on_failure']),
+        ('in-on_success', lambda r: {'steps': [P('before')], 'on_success': [P('on_success'), base_step(r), P('never')],
+                                     'on_failure': [P('on_failure')]}, ['before', 'on_success']),
+    ]
+    pos_raised = [S(0), S(3), {'kind': 'baseOther', 'ty': 'MyBase', 'msg': 'bb'}]
+    for name, mk, trace in positions:
+        for r in (pos_raised if full else [S(0), rng.choice(pos_raised[1:])]):
+            add(name, r, mk(r), trace)
+    for r in (pos_raised if full else [S(0)]):
+        child = {'work/child.yaml': json.dumps({'steps': [P('child'), base_step(r), P('never')], 'on_failure': [P('on_failure')]})}
+        add('in-child-pipeline', r, {'steps': [P('before'), {'name': 'pypyr.steps.pype', 'in': {'pype': {'name': 'child'}}}, P('never')],
+                                     **tails}, ['before', 'child'], files=child)
+        add('in-child-pipeline-raiseError-false', r,
+            {'steps': [P('before'), {'name': 'pypyr.steps.pype', 'in': {'pype': {'name': 'child', 'raiseError': False}}}, P('never')],
+             **tails}, ['before', 'child'], files=child)
+        # an ordinary step module (no exec of a string) doing the same
+        code = ('import sys\ndef run_step(context):\n    ' +
+                (f"sys.exit({exit_code_src(r['code'])})" if r['kind'] == 'systemExit' else
+                 f"raise type({r['ty']!r}, (BaseException,), {{}})({r['msg']!r})") + '\n')
+        add('custom-step-module', r, {'steps': [P('before'), 'exiter', P('never')], **tails}, ['before'],
+            files={'work/exiter.py': code})
+    # the log level does not matter (main's handler is not involved)
+    add('plain-log-5', S(0), {'steps': [P('before'), base_step(S(0)), P('never')], **tails}, ['before'], argv=['pipe', '--log', '5'])
+    add('plain-log-5', S({'text': 'bye'}), {'steps': [P('before'), base_step(S({'text': 'bye'})), P('never')], **tails}, ['before'],
+        argv=['pipe', '--log=5'])
+    return C
+
+
+def judge_base(env, res, c, o):
+    drv = env.driver
+    r = c['raised']
+    case = dict(c)
+    res.case(case, nontrivial=True)
+    res.count(f"proc:base:{r['kind']}")
+    res.count('proc-status:' + str(o['status']))
+    brief = {'status': o['status'], 'stderr_tail': o['stderr'][-500:], 'trace': [p['g'] for p in o['probe']]}
+    # ---- monitor: "exits 0 exactly when the pipeline ran to completion or was ended by a Stop instruction"
+    if o['status'] == 0:
+        res.violation(case, EXIT0_TEXT + f"`python -m pypyr pipe` with a step doing {r} ({c['variant']}): exit status 0, "
+                      f"steps/handlers run: {brief['trace']} (the step after it, on_success and on_failure did not run)",
+                      signature=SIG_EXIT0, impl=brief)
+    # ---- model: status, what the interpreter writes, traceback or not; nothing after the raise runs
+    m = drv.ask('cli.exit', raised={k: v for k, v in r.items() if k != 'bool'})
+    tb = 'Traceback (most recent call last)' in o['stderr']
+    mv = {'status': m['status'], 'stderr_contains': m['stderr'], 'traceback': m['interpreter_traceback'] or m['main_traceback'],
+          'trace': c['expect_trace']}
+    rv = {'status': o['status'], 'stderr_contains': m['stderr'] if m['stderr'] in o['stderr'] else o['stderr'][-300:],
+          'traceback': tb, 'trace': brief['trace']}
+    if mv != rv:
+        res.mismatch(case, mv, rv)
+    if r['kind'] == 'baseOther' and f"{r['ty']}: {r['msg']}".rstrip(': ') not in o['stderr']:
+        res.mismatch(case, {'traceback_names': r['ty']}, brief)
+
+
+def exit0_cases(env, full):
+    """--version / -h / --help in real processes: status 0, the pipeline does not run."""
+    body = {'steps': [probe_step('steps')], 'on_success': [probe_step('on_success')]}
+    files = {'work/pipe.yaml': json.dumps(body, indent=1)}
+    argvs = [['--version'], ['pipe', '--version'], ['-h'], ['pipe', 'a=b', '--success', 's', 'extra', '--ver'], ['--he', 'pipe']]
+    if full:
+        argvs += [['--groups', 'g', '--version'], ['--log', '5', '-h', '--nope'], ['pipe', '--', '--version'], ['--version', '--lo'],
+                  ['--success', '--version'], ['-hh'], ['-hx'], ['--version=1']]
+    return [{'kind': 'proc', 'family': 'exit0', 'variant': ' '.join(a), 'files': files, 'argv': a, 'sigint': False} for a in argvs]
+
+
+def judge_exit0(env, res, c, o):
+    case = dict(c)
+    res.case(case, nontrivial=True)
+    res.count('proc:exit0')
+    res.count('proc-status:' + str(o['status']))
+    m = env.driver.ask('cli.process', argv=c['argv'], raised={'kind': 'nothing'})
+    trace = [p['g'] for p in o['probe']]
+    rv = {'status': o['status'], 'runner_called': bool(trace)}
+    if m != rv:
+        res.mismatch(case, m, {**rv, 'stderr_tail': o['stderr'][-300:]})
+    if any(a in ('--version', '--ver') for a in c['argv']) and m['status'] == 0 and not m['runner_called']:
+        import pypyr.version
+        if pypyr.version.get_version() not in o['stdout']:
+            res.mismatch(case, {'stdout_contains': pypyr.version.get_version()}, {'stdout': o['stdout'][-200:]})
+
+
+SC_CONFIG = """shortcuts:
+  sc:
+    pipeline_name: pipe
+    parser_args: [a=1, b=2]
+    args: {k: from-shortcut, only: 1}
+    groups: [g1]
+    success: s1
+  argsonly:
+    pipeline_name: pipe
+    args: {k: from-shortcut}
+  forced:
+    pipeline_name: pipe
+    args: {k: from-shortcut}
+    skip_parse: false
+  onegroup:
+    pipeline_name: pipe
+    groups: g2
+    failure: f1
+"""
+
+
+def shortcut_proc_cases(env, full):
+    """`pypyr <shortcut> …` with a ./pypyr-config.yaml: what runs and what the first step sees."""
+    groups = {g: [probe_step(g)] for g in ('steps', 'g1', 'g2', 'on_success', 'on_failure', 's1', 'f1')}
+    files = {'work/pypyr-config.yaml': SC_CONFIG}
+    C = []
+
+    def add(variant, argv, parser, trace, ctx, fail_in=None):
+        body = {k: list(v) for k, v in groups.items()}
+        if fail_in:
+            body[fail_in] = body[fail_in] + [raise_step('ValueError', 'probe failure')]
+        if parser:
+            body['context_parser'] = parser
+        C.append({'kind': 'proc', 'family': 'shortcut', 'variant': variant, 'argv': argv, 'parser': parser, 'sigint': False,
+                  'files': {**files, 'work/pipe.yaml': json.dumps(body, indent=1)}, 'config': SC_CONFIG,
+                  'expect': {'status': 255 if fail_in else 0, 'trace': trace, 'ctx': ctx}})
+    KV = 'pypyr.parser.keyvaluepairs'
+    add('parser_args+args+groups+success', ['sc', 'b=3', '--failure', 'f1'], KV, ['g1', 's1'],
+        {'k': 'from-shortcut', 'only': 1, 'a': '1', 'b': '3'})
+    add('args-only-no-cli-args: parser does not run', ['argsonly'], 'pypyr.parser.list', ['steps', 'on_success'], {'k': 'from-shortcut'})
+    add('args-only-with-cli-args: parser runs', ['argsonly', 'x', 'y'], 'pypyr.parser.list', ['steps', 'on_success'],
+        {'k': 'from-shortcut', 'argList': ['x', 'y']})
+    add('no shortcut of that name: unchanged', ['pipe', 'k=mine', '--groups', 'g2', 'g1', '--success', 's1'], KV, ['g2', 'g1', 's1'],
+        {'k': 'mine'})
+    if full:
+        add('skip_parse false', ['forced'], 'pypyr.parser.list', ['steps', 'on_success'], {'k': 'from-shortcut', 'argList': []})
+        add('cli groups lose against the shortcut', ['sc', '--groups', 'g2'], KV, ['g1', 's1'],
+            {'k': 'from-shortcut', 'only': 1, 'a': '1', 'b': '2'})
+        add('string group, failure', ['onegroup', '--success', 's1'], None, ['g2', 'f1'], {}, fail_in='g2')
+        add('cli success kept when the shortcut has none', ['onegroup', '--suc=s1'], None, ['g2', 's1'], {})
+    return C
+
+
+def judge_shortcut(env, res, c, o):
+    import ruamel.yaml
+    drv = env.driver
+    case = dict(c)
+    res.case(case, nontrivial=True)
+    res.count('proc:shortcut')
+    res.count('proc-status:' + str(o['status']))
+    exp = c['expect']
+    trace = [p['g'] for p in o['probe']]
+    first = next((p for p in o['probe'] if 'ctx' in p), None)
+    brief = {'status': o['status'], 'trace': trace, 'ctx': first and first['ctx'], 'stderr_tail': o['stderr'][-300:]}
+    sig = {'part': 'process', 'term': 'shortcut'}
+    named = c['argv'][0] in ruamel.yaml.YAML(typ='safe').load(c['config'])['shortcuts']
+    what = 'documented shortcut rewrite' if named else 'pass-through (no shortcut of that name)'
+    # ---- monitor: the documented contract (property text for names without a shortcut; docstring of run() otherwise)
+    if o['status'] != exp['status'] or trace != exp['trace']:
+        res.violation(case, f"{what}: groups run {trace} (status {o['status']}), the command line + config mean {exp['trace']}",
+                      signature={**sig, 'clause': 'groups-success-failure'}, impl=brief)
+    elif first is not None and first['ctx'] != exp['ctx']:
+        res.violation(case, f"{what}: first step saw context {first['ctx']}, the command line + config mean {exp['ctx']}",
+                      signature={**sig, 'clause': 'context'}, impl=brief)
+    # ---- model: argv -> call -> applyShortcut -> initial context
+    a = drv.ask('cli.argv', argv=c['argv'])
+    call = a['call']
+    shortcuts = ruamel.yaml.YAML(typ='safe').load(c['config'])['shortcuts']
+    r = drv.ask('cli.shortcut', shortcuts=common.enc(shortcuts),
+                call={'name': call['pipeline_name'], 'context_args': call['args_in'], 'parse_input': call['parse_args'],
+                      'dict_in': None, 'loader': None, 'groups': call['groups'], 'success_group': call['success_group'],
+                      'failure_group': call['failure_group'], 'py_dir': call['py_dir']})['ok']
+    ic = drv.ask('cli.initctx', parser=c['parser'], parse_args=r['parse_input'], args_in=r['context_args'], dict_in=r['dict_in'])
+    mctx = common.dec(ic['ok'])
+    run_groups = r['groups'] or ['steps']
+    succ, fail = r['success_group'], r['failure_group']
+    if not r['groups'] and succ is None and fail is None:
+        succ, fail = 'on_success', 'on_failure'
+    mtrace = list(run_groups) + ([succ] if succ and exp['status'] == 0 else []) + ([fail] if fail and exp['status'] == 255 else [])
+    mv = {'pipeline': r['name'], 'trace': mtrace, 'ctx': mctx}
+    rv = {'pipeline': 'pipe' if trace else None, 'trace': trace, 'ctx': first and first['ctx']}
+    if mv != rv:
+        res.mismatch(case, mv, rv)
 
 
 # --------------------------------------------------------------------------
@@ -1000,11 +1584,23 @@ def judge_proc(env, res, c, o):
     elif raised is None:
         raised = {'kind': {'ok': 'nothing', 'probe': 'nothing', 'stop': 'stop', 'stoppipeline': 'stopPipeline',
                            'stopstepgroup': 'stopStepGroup'}[c['term']]}
-    m = drv.ask('cli.exit', raised=raised)
+    lvl = None
+    try:
+        am = drv.ask('cli.argv', argv=c['argv'])
+        lvl = am['ok']['log'] if 'ok' in am else None
+    except common.Reject:
+        pass
+    m = drv.ask('cli.exit', raised=raised, log_level=lvl)
     stderr_model = m['stderr']
     if c.get('raised') == 'type-only':
         stderr_model = stderr_model.split(': ')[0] + ': '
     ok = m['status'] == o['status'] and (stderr_model in o['stderr'])
+    if ok and o['status'] == 255:
+        # the traceback after the "type: message" line: printed iff the log level is given, non-zero and < 10
+        res.count(f"proc-traceback:{'shown' if m['main_traceback'] else 'not-shown'}")
+        after = o['stderr'].split(stderr_model, 1)[1] if stderr_model in o['stderr'] else o['stderr']
+        if ('Traceback (most recent call last)' in after) != m['main_traceback']:
+            ok = False
     if c['sigint'] and not o['stdout'].endswith(m['stdout']):
         ok = False
     if not ok:
@@ -1032,6 +1628,12 @@ def check_procs(env, res, cases):
         o = next(it)
         if c.get('family') == 'fault':
             judge_fault(env, res, c, o, next(it) if c['origin'] == 'natural' else None)
+        elif c.get('family') == 'base':
+            judge_base(env, res, c, o)
+        elif c.get('family') == 'exit0':
+            judge_exit0(env, res, c, o)
+        elif c.get('family') == 'shortcut':
+            judge_shortcut(env, res, c, o)
         else:
             judge_proc(env, res, c, o)
 
@@ -1054,26 +1656,50 @@ def extract(env):
 
 def order_findings(res):
     """Only the first few distinct findings get a replay file: put the most concrete ones first - real
-    command lines with broken files, then injected faults in real processes, then everything else,
-    in-process scripted ladders last."""
+    command lines (a step calling sys.exit, broken files), then injected faults in real processes, then
+    everything else, in-process scripted ladders last."""
     def prio(f):
         if f['kind'] != 'property':
             return 0
         c = f['case'] if isinstance(f['case'], dict) else {}
+        if f.get('signature') == SIG_EXIT0:
+            # one finding, many instances (they collapse into one VIOLATION line): after everything else, the
+            # real command line first
+            return 5 if c.get('family') == 'base' else 6
         if c.get('family') == 'fault':
             return {'natural': 0, 'call-raises': 1, 'line-raises': 2}.get(c.get('origin'), 2)
-        return 4 if c.get('kind') == 'phase-ladder' else 3
+        return 4 if c.get('kind') in ('phase-ladder', 'ladder') else 3
     res.findings.sort(key=prio)
+
+
+def check_cwd_default(env, res):
+    case = {'kind': 'cwd-default'}
+    o = impl.cwd_default_obs()
+    res.case(case, nontrivial=True)
+    res.count('cwd-default')
+    want = {'is_config_cwd': True, 'is_module_CWD': True, 'same_after_chdir': True}
+    if o != want:
+        res.mismatch(case, want, o, note='the default of --dir is the module constant pypyr.config.CWD (model: dir = none)')
 
 
 def run(env, res):
     res.rule = ('argv: directed list + command lines rendered in the three accepted layouts from random options/values '
-                '(=, spaces, quotes, unicode, empty strings, group lists) + adversarial token soup; parsers: empty/None, '
+                '(=, spaces, quotes, unicode, empty strings, group lists), every option written with its exact string or a '
+                'unique-prefix abbreviation and its value separate or joined with "=", --log values in every spelling int() '
+                'takes, names/context arguments/values that start with "-" (negative numbers, blanks) + help/version '
+                'options among valid options + adversarial token soup over all of these (ambiguous abbreviations, unknown '
+                'options, -h chains, out-of-domain strings); single strings vs ArgumentParser._parse_optional (every prefix '
+                'of every option string, = forms, negative-number matcher, random dash strings); parsers: empty/None, '
                 'directed and random argument lists for each of the 7 parsers (json: generated documents cut at spaces, '
                 'non-objects, invalid text); _get_parse_input: full 3x4x3 table; API initial context: parser x parse_args '
-                'x args_in x dict_in; exit ladders in-process: every kind x type x message; real processes: generated '
-                'pipelines per way of termination (ok, stop/stoppipeline/stopstepgroup in 8 positions, error kinds, '
-                'SIGINT in 11 positions) and end-to-end pass-through probes; a fault in every phase of the command: '
+                'x args_in x dict_in; shortcuts: directed + generated config.shortcuts tables x API calls through '
+                'Pipeline.new_pipe_and_args (every key absent/null/empty/set, out-of-domain kinds counted); exit ladders '
+                'in-process: every kind x type x message x log level, SystemExit(code) for 21 codes and other '
+                'BaseExceptions; real processes: generated pipelines per way of termination (ok, '
+                'stop/stoppipeline/stopstepgroup in 8 positions, error kinds x log levels for the traceback, SIGINT in 11 '
+                'positions), sys.exit(code) / BaseException raised by a step in 12 positions (probe steps after it, on_success, '
+                'on_failure must not run), --version/-h, shortcuts from a pypyr-config.yaml, and end-to-end pass-through '
+                'probes written with abbreviations / = / dash-leading arguments; a fault in every phase of the command: '
                 'in-process cli.main with scripted raises from config.init / set_root_logger / below Pipeline.run, alone '
                 'and in pairs; real processes with broken config files / $PYPYR_CONFIG_GLOBAL / pyproject.toml / '
                 'log_config / --logpath / missing or malformed pipelines / failing steps / steps raising '
@@ -1082,12 +1708,16 @@ def run(env, res):
                 'raising (trace-function shim). non-trivial = all')
     q = env.quick
     impl.quiet_logging()
-    check_argv(env, res, 1500 if q else 12000, 600 if q else 6000)
+    check_argv(env, res, 1500 if q else 12000, 700 if q else 8000)
+    check_classify(env, res, 300 if q else 6000)
+    check_cwd_default(env, res)
     check_parsers(env, res, 1500 if q else 15000)
     check_api(env, res, 250 if q else 100000)
-    check_ladders(env, res, 40 if q else 1000)
-    check_phase_ladders(env, res, 80 if q else 3000)
-    check_procs(env, res, fault_cases(env, full=not q) + proc_cases(env, full=not q))
+    check_shortcuts(env, res, 500 if q else 12000)
+    check_ladders(env, res, 60 if q else 1000)
+    check_phase_ladders(env, res, 120 if q else 3000)
+    check_procs(env, res, base_cases(env, full=not q) + exit0_cases(env, full=not q) + shortcut_proc_cases(env, full=not q) +
+                fault_cases(env, full=not q) + proc_cases(env, full=not q))
     order_findings(res)
 
 
@@ -1102,7 +1732,10 @@ def replay(env, res, case):
     else:
         # in-process parts are cheap and seeded: re-run them all
         check_argv(env, res, 300, 100)
+        check_classify(env, res, 100)
+        check_cwd_default(env, res)
         check_parsers(env, res, 300)
         check_api(env, res, 250)
-        check_ladders(env, res, 40)
-        check_phase_ladders(env, res, 80)
+        check_shortcuts(env, res, 300)
+        check_ladders(env, res, 60)
+        check_phase_ladders(env, res, 120)
